@@ -359,13 +359,13 @@ func sizeSweep(tier string, bigMaps bool) []Item {
 
 // InternHistory is the history dimension of interned fields: one decode pushes n DISTINCT values
 // through a single interned field (a slice of n structs), for n around every power of two up to
-// 2^13 (thorough: 2^15; the interned-field check C19 goes beyond 2^14 in its quick tier). The intern table of that field grows by one entry per new value, so n is
+// 2^13 (thorough: 2^14; the interned-field check C19 goes beyond 2^14 in its quick tier). The intern table of that field grows by one entry per new value, so n is
 // also the table size the last element is decoded against. One item per n (own worker each: the
 // library copies its table for every new value, which makes a decode quadratic in n).
 func InternHistory(tier string) []Item {
 	maxK := 13
 	if tier == "thorough" {
-		maxK = 15
+		maxK = 14
 	}
 	var out []Item
 	for k := 8; k <= maxK; k++ {
